@@ -10,6 +10,9 @@ import Rare.Gen.Tables
 import Rare.Proofs.C08Guards
 import Rare.Proofs.C08Extra
 import Rare.Proofs.C08Loops
+import Rare.Proofs.C08Format
+import Rare.Proofs.C08TimeW
+import Rare.Proofs.C18Cal
 import Rare.Proofs.C11
 import Rare.Model.C02
 import Rare.Gen.C08
@@ -24,9 +27,14 @@ safe argument stages the builder neither panics at compile time nor returns a st
   with or without optimisation (no panic, and the recursion always returns), and evaluating the result
   against any context returns a string.
 * `std_safe`: every modelled helper of `stdlib.StandardFunctions` is a safe builder (proved per
-  family); `functions_covered` (over the table regenerated from /repo): every Go helper is either in
-  that set or in the explicit list of helpers outside the model, whose panic-freedom rests on the
-  library they wrap and on the correspondence run only.
+  family); `functions_covered` (over the table regenerated from /repo): every one of the 85 Go helpers is
+  proved panic-free (75: `safeTable`, the world-dependent `color bar load json`, the six time helpers
+  relative to a time world, `format`) or is a modelled helper that can answer `unmodelled` for part of its
+  inputs (10: float / non-ASCII case / `{! }` rendering).  No helper is outside the model.
+* `format_safe`: `{format}` = `fmt.Sprintf` on string operands (`Funcs/Format.lean`) returns for every format and
+  operand list; `time_safe`, `time_name_tables_safe`: `time`, `timeformat`, `timeattr`, `buckettime`, `duration`,
+  `durationformat` (`Funcs/TimeW.lean` over `Model/C18.lean`) are panic-free in every time world (zone
+  database, dateparse, wall clock) whose calls return; `all_safe`, `full_compile_eval_total` put everything together.
 * second half of the file: every size / index guard in front of a panicking Go operation, as
   regenerated from /repo (`Gen/C08.lean`), admits only safe arguments for all int64 inputs, and equals
   the guard of the hand model (`repeat_guard_safe`, `substr_bounds_safe`, `select_slices_safe`,
@@ -181,14 +189,122 @@ example : ∃ stages errs v,
     (buildKey stages).run ⟨fun _ => ascii "3", fun _ => []⟩ = .ok v :=
   world_compile_eval_total _ (fun _ _ => .ret _) true _ _
 
+/-! ### `format` (`fmt.Sprintf` on string operands) and the time helpers (relative to a time world) -/
+
+/-- **`{format}` is panic-free**: the model of `fmt.Sprintf` on string operands (`Funcs/Format.lean`: flags,
+    width, precision, `*`, `[n]`, every verb, the `%!…` error forms, `strconv.Quote`) returns for every
+    format and operand list – no operand index out of range, the loop over the format ends – whatever
+    `unicode.IsPrint` answers for non-ASCII runes. -/
+theorem format_safe (isPrint : Nat → Bool) :
+    (∀ p ∈ Funcs.Format.table isPrint, SafeBuilder p.2) ∧
+    (∀ (format : Bytes) (a : List Bytes), ∃ out, Funcs.Format.sprintf isPrint format a = .ok out) :=
+  ⟨Funcs.Format.format_safe isPrint, Funcs.Format.sprintf_total isPrint⟩
+
+/-- **The time helpers are panic-free in every time world**: `time` (incl. `now` / `live` / `delta`, `auto`,
+    `cache` and explicit formats), `timeformat`, `timeattr`, `buckettime`, `duration`, `durationformat`
+    (`Funcs/TimeW.lean`, over the layout tokenizer / formatter / parser / calendar of `Model/C18.lean`) are
+    safe builders for every zone database, every `dateparse` behaviour and every wall clock; the one
+    assumption is that the calls into the world return. -/
+theorem time_safe (tw : Funcs.TimeW.TimeWorld) (hw : tw.Returns) : ∀ p ∈ Funcs.TimeW.table tw, SafeBuilder p.2 :=
+  Funcs.TimeW.time_safe tw hw
+
+/-- The name-table look-ups of the layout formatter (`longMonthNames[m-1]`, `longDayNames[wd]` and their
+    short forms) are inside their tables for every instant and every zone offset: the calendar always
+    answers a month in 1..12 and a weekday in 0..6 (so `C18.nameAt` never uses its default). -/
+theorem time_name_tables_safe (unix off : Int) (abbr : Bytes) :
+    0 ≤ (C18.timeVOf unix off abbr).dt.m - 1 ∧ (C18.timeVOf unix off abbr).dt.m - 1 < C18.longMonthNames.length ∧
+    0 ≤ (C18.timeVOf unix off abbr).wd ∧ (C18.timeVOf unix off abbr).wd < C18.longDayNames.length := by
+  have hm := C18.civil_month_day (C18.localDays unix off)
+  have hw := C18.weekday_range' (C18.localDays unix off)
+  have e1 : (C18.timeVOf unix off abbr).dt.m = (C18.civilFromDays (C18.localDays unix off)).m := rfl
+  have e2 : (C18.timeVOf unix off abbr).wd = C18.weekday (C18.localDays unix off) := rfl
+  have l1 : C18.longMonthNames.length = 12 := rfl
+  have l2 : C18.longDayNames.length = 7 := rfl
+  rw [e1, e2, l1, l2]
+  omega
+
+/-- Every proved-safe helper: the standard ones, `color` / `bar` / `load` / `json` in a world `w`, the time
+    helpers in a time world `tw`, `format` for an `IsPrint` oracle. -/
+def safeTableX {α : Type} (w : Funcs.Extra.World α) (tw : Funcs.TimeW.TimeWorld) (isPrint : Nat → Bool) : Table :=
+  safeTableW w ++ Funcs.TimeW.table tw ++ Funcs.Format.table isPrint
+
+theorem all_safe {α : Type} (w : Funcs.Extra.World α) (hg : ∀ j p, Safe (w.gjson j p))
+    (tw : Funcs.TimeW.TimeWorld) (hw : tw.Returns) (isPrint : Nat → Bool) :
+    ∀ p ∈ safeTableX w tw isPrint, SafeBuilder p.2 := by
+  intro p hp
+  simp only [safeTableX, List.mem_append] at hp
+  rcases hp with (h | h) | h
+  · exact ext_safe w hg p h
+  · exact time_safe tw hw p h
+  · exact (format_safe isPrint).1 p h
+
+def safeRegistryX {α : Type} (w : Funcs.Extra.World α) (tw : Funcs.TimeW.TimeWorld) (isPrint : Nat → Bool) : Registry :=
+  mkRegistry (safeTableX w tw isPrint) []
+
+theorem safeRegistryX_safe {α : Type} (w : Funcs.Extra.World α) (hg : ∀ j p, Safe (w.gjson j p))
+    (tw : Funcs.TimeW.TimeWorld) (hw : tw.Returns) (isPrint : Nat → Bool) :
+    SafeRegistry (safeRegistryX w tw isPrint) := by
+  intro name b h
+  unfold safeRegistryX mkRegistry at h
+  dsimp only at h
+  split at h
+  · rename_i b' hb
+    simp only [Option.some.injEq] at h
+    subst h
+    unfold lookupTable at hb
+    cases hf : (safeTableX w tw isPrint).find? (fun x => x.1 == String.ofList name) with
+    | none => simp [hf] at hb
+    | some p =>
+      simp [hf] at hb
+      subst hb
+      exact all_safe w hg tw hw isPrint p (List.mem_of_find?_eq_some hf)
+  · simp at h
+
+/-- `compile_total` / `eval_total` with 75 of the 85 helpers of `stdlib.StandardFunctions`: the 64 standard
+    ones of `safeTable`, `color` `bar` `load` `json`, the six time helpers and `format` – for every world. -/
+theorem full_compile_eval_total {α : Type} (w : Funcs.Extra.World α) (hg : ∀ j p, Safe (w.gjson j p))
+    (tw : Funcs.TimeW.TimeWorld) (hw : tw.Returns) (isPrint : Nat → Bool)
+    (opt : Bool) (t : List Char) (ctx : Ctx) :
+    ∃ stages errs v, compile (safeRegistryX w tw isPrint) opt t = .ok (stages, errs) ∧
+      (buildKey stages).run ctx = .ok v :=
+  eval_total (safeRegistryX w tw isPrint) (safeRegistryX_safe w hg tw hw isPrint) opt t ctx
+
+/-- A concrete time world: UTC only (no other zone loads), `dateparse` recognising nothing, a clock. -/
+def utcWorld : Funcs.TimeW.TimeWorld :=
+  { loadOk := fun _ => some false, zones := fun _ => [], lookup := fun _ _ => .ret ⟨C18.asc "UTC", 0, Funcs.TimeW.alpha, Funcs.TimeW.omega⟩,
+    detect := fun _ => .ret none, parseAny := fun _ _ => .ret none,
+    nowBuild := .ret (ascii "1700000000"), nowLive := .ret (ascii "1700000001"), nowDelta := .ret (ascii "1"),
+    lib := fun _ => .ret [] }
+
+theorem utcWorld_returns : utcWorld.Returns :=
+  ⟨fun _ _ => .ret _, fun _ => .ret _, fun _ _ => .ret _, .ret _, .ret _, .ret _, fun _ => .ret _⟩
+
+example : ∃ stages errs v,
+    compile (safeRegistryX (α := Int) ⟨⟨id, (· + ·), (· - ·), (· * ·), (· / ·), id, id, (fun a b => decide (a ≤ b)), (· == ·), id, id, id, id, id⟩,
+      ⟨true, true⟩, false, (fun _ => none), fun _ _ => .ret []⟩ utcWorld (fun _ => true)) true
+      "{format \"%5s|%q\" {timeformat {0} RFC3339} {time now}} {buckettime {1} day} {timeattr {0} quarter} {duration 1h}".toList
+        = .ok (stages, errs) ∧
+    (buildKey stages).run ⟨fun _ => ascii "1609556645", fun _ => []⟩ = .ok v :=
+  full_compile_eval_total _ (fun _ _ => .ret _) utcWorld utcWorld_returns _ true _ _
+
 /-- Every helper of `stdlib.StandardFunctions` (names regenerated from /repo) is accounted for: it is
-    proved panic-free (`safeTable`, or `Funcs.Extra.names` = the world-dependent four), or it is a
-    modelled helper that can answer `unmodelled`, or it is in the explicit list of helpers outside the
-    model (`format` = `fmt.Sprintf`, and the time helpers).  A helper added to the Go table makes this fail. -/
+    proved panic-free – in `safeTable`, or one of the world-dependent four (`Funcs.Extra.names`), the six
+    time helpers (`Funcs.TimeW.names`), `format` (`Funcs.Format.names`) – or it is a modelled helper that can
+    answer `unmodelled` for part of its inputs (`unmodelledNames`).  No helper is outside the model any more.
+    A helper added to the Go table makes this fail. -/
 theorem functions_covered :
     Gen.stdFunctionNames.all (fun n =>
-      (safeTable.map (·.1)).contains n || Funcs.Extra.names.contains n || unmodelledNames.contains n ||
-      ["format", "time", "timeformat", "timeattr", "buckettime", "duration", "durationformat"].contains n) = true := by decide
+      (safeTable.map (·.1)).contains n || Funcs.Extra.names.contains n || Funcs.TimeW.names.contains n ||
+      Funcs.Format.names.contains n || unmodelledNames.contains n) = true ∧
+    Gen.stdFunctionNames.length = 85 ∧
+    (Gen.stdFunctionNames.filter fun n => (safeTable.map (·.1)).contains n || Funcs.Extra.names.contains n ||
+      Funcs.TimeW.names.contains n || Funcs.Format.names.contains n).length = 75 ∧
+    (Gen.stdFunctionNames.filter fun n => unmodelledNames.contains n).length = 10 := by decide
+
+/-- The name lists are exactly the names of the tables (in every world). -/
+theorem time_format_names (tw : Funcs.TimeW.TimeWorld) (isPrint : Nat → Bool) :
+    (Funcs.TimeW.table tw).map (·.1) = Funcs.TimeW.names ∧ (Funcs.Format.table isPrint).map (·.1) = Funcs.Format.names :=
+  ⟨rfl, rfl⟩
 
 /-- `Funcs.Extra.names` are exactly the names of `Funcs.Extra.table` (in every world). -/
 theorem extra_names {α : Type} (w : Funcs.Extra.World α) : (Funcs.Extra.table w).map (·.1) = Funcs.Extra.names := rfl
